@@ -71,13 +71,13 @@ def pinnedSkeleton : List (String × String) := [
   ("parser.readArgValues", "cdf8819b1f0b"),
   ("parser.readByte", "17681f2c239b"),
   ("parser.readDesc", "4d773b7bf13a"),
-  ("parser.readDirUse", "6e7a61cf90ed"),
+  ("parser.readDirUse", "b8689d53bc0c"),
   ("parser.readDirUses", "3aef5c6ea839"),
   ("parser.readEscaped", "6e29c300ab39"),
   ("parser.readNumberToken", "f3b19f6d64a1"),
   ("parser.readString", "898da43fe809"),
   ("parser.readToken", "ef9998d985e1"),
-  ("parser.readType", "08e7d55e1191"),
+  ("parser.readType", "72e6db3b5988"),
   ("parser.readValue", "67b6dc0216a2"),
   ("parser.shallower", "6a32e8f2f49b"),
   ("parser.skipBOM", "3748472419d4"),
